@@ -102,6 +102,34 @@ fn corner() -> Vec<String> {
         })).map_err(|_| ());
         check(&format!("zst-vec-into-boxed-slice:n={}", n), b, s);
     }
+    // formatting goes through the pointee's own impl *with the caller's formatter*: width, fill, alignment, sign, precision and
+    // the alternate flag all reach it
+    {
+        let bump = Bump::new();
+        macro_rules! fmt_case {
+            ($name:expr, $fmt:literal, $val:expr) => {{
+                let v = $val;
+                let bx = bumpalo::boxed::Box::new_in($val, &bump);
+                check(&format!("format:{}:{}", $name, $fmt), Ok(format!($fmt, bx)), Ok(format!($fmt, v)));
+            }};
+        }
+        fmt_case!("i32", "[{:>7}]", 42i32);
+        fmt_case!("i32", "[{:<7}]", 42i32);
+        fmt_case!("i32", "[{:*^9}]", -42i32);
+        fmt_case!("i32", "[{:+}]", 42i32);
+        fmt_case!("i32", "[{:05}]", 42i32);
+        fmt_case!("f64", "[{:.2}]", 3.14159f64);
+        fmt_case!("f64", "[{:10.3}]", 3.14159f64);
+        fmt_case!("f64", "[{:+08.1}]", 31415.9f64);
+        fmt_case!("str", "[{:>8}]", "abc");
+        fmt_case!("str", "[{:.2}]", "abcdef");
+        fmt_case!("str", "[{:-<6.2}]", "abcdef");
+        fmt_case!("i32", "[{:5?}]", 42i32);
+        fmt_case!("i32", "[{:#?}]", 42i32);
+        fmt_case!("opt", "[{:?}]", Some(7u8));
+        fmt_case!("opt", "[{:#?}]", Some((1u8, "x")));
+        fmt_case!("str", "[{:>8?}]", "a\"b");
+    }
     // a value whose order is only partial (an incomparable pair exists): the box compares exactly as the value does,
     // operator by operator (`le` is not `!gt` here)
     let vals = [f64::NAN, f64::NEG_INFINITY, -1.0, -0.0, 0.0, 1.5, f64::INFINITY];
